@@ -208,21 +208,36 @@ def gitParents (parents : List Bytes) : Except Err (List Bytes) :=
 /-- `serialize_extras` -/
 def serializeExtras (c : Commit) : Extras := ⟨c.changeId, c.predecessors⟩
 
+/-- the tree of the Git commit: the resolved tree id (validated) or the `write_tree_conflict` tree -/
+def gitTreeOf (rootTree : List Bytes) : Except Err GitTree :=
+  match rootTree with
+  | [id] => if validId id then .ok (GitTree.plain id) else .error .hashLen
+  | ids => if ids.all validId then .ok (GitTree.conflict ids) else .error .panic  -- `from_bytes_or_panic`
+
+/-- the `jj:conflict-labels` header (only for unresolved label merges; `assert!` on newlines) -/
+def labelsHeaderOf (labels : List Bytes) : Except Err (Option Bytes) :=
+  if labels.length ≠ 1 then
+    if labels.any (fun l => l.contains 10) then .error .panic
+    else .ok (some (labelsHeaderValue labels))
+  else .ok none
+
 /-- the Git commit object `write_commit` builds on its first attempt -/
-def toGitCommit (c : Commit) : Except Err GitCommit := do
-  let tree ← match c.rootTree with
-    | [id] => if validId id then .ok (GitTree.plain id) else .error .hashLen
-    | ids => if ids.all validId then .ok (GitTree.conflict ids) else .error .panic  -- `from_bytes_or_panic`
-  if c.parents.isEmpty then .error .noParents
-  let parents ← gitParents c.parents
-  let labelsHeader ←
-    if c.labels.length ≠ 1 then
-      if c.labels.any (fun l => l.contains 10) then .error .panic   -- the `assert!`
-      else .ok (some (labelsHeaderValue c.labels))
-    else .ok none
-  let treesHeader := if c.rootTree.length ≠ 1 then some c.rootTree else none
-  .ok { tree, parents, author := signatureToGit c.author, committer := signatureToGit c.committer,
-        message := c.description, labelsHeader, treesHeader, changeIdHeader := some c.changeId }
+def toGitCommit (c : Commit) : Except Err GitCommit :=
+  match gitTreeOf c.rootTree with
+  | .error e => .error e
+  | .ok tree =>
+    if c.parents.isEmpty then .error .noParents
+    else
+      match gitParents c.parents with
+      | .error e => .error e
+      | .ok parents =>
+        match labelsHeaderOf c.labels with
+        | .error e => .error e
+        | .ok labelsHeader =>
+          .ok { tree, parents, author := signatureToGit c.author, committer := signatureToGit c.committer,
+                message := c.description, labelsHeader
+                treesHeader := if c.rootTree.length ≠ 1 then some c.rootTree else none
+                changeIdHeader := some c.changeId }
 
 /-- the `loop` of `write_commit`: while an entry with the same id but different extras exists,
 `committer.time.seconds -= 1` (fuel = table size + 1 suffices: every failed attempt hits a distinct entry) -/
@@ -237,15 +252,18 @@ def adjustLoop (t : Table) (extras : Extras) : Nat → GitCommit → GitCommit
 /-- `GitBackend::write_commit`: new table, id (= the record), returned commit.
 `fixAuthor = true` models the repaired code (author timestamp truncated in the returned commit like
 the committer's); `false` is the code as it stands (finding F1). -/
-def gitWrite (fixAuthor : Bool) (t : Table) (c : Commit) : Except Err (Table × GitCommit × Commit) := do
-  let g0 ← toGitCommit c
-  if sigRejected g0.author || sigRejected g0.committer then .error .writeObject
-  let extras := serializeExtras c
-  let g := adjustLoop t extras (t.length + 1) g0
-  let returned : Commit :=
-    { c with committer := { c.committer with ms := g.committer.seconds * 1000 }
-             author := if fixAuthor then { c.author with ms := g.author.seconds * 1000 } else c.author }
-  .ok ((g, extras) :: t, g, returned)
+def gitWrite (fixAuthor : Bool) (t : Table) (c : Commit) : Except Err (Table × GitCommit × Commit) :=
+  match toGitCommit c with
+  | .error e => .error e
+  | .ok g0 =>
+    if sigRejected g0.author || sigRejected g0.committer then .error .writeObject
+    else
+      let extras := serializeExtras c
+      let g := adjustLoop t extras (t.length + 1) g0
+      let returned : Commit :=
+        { c with committer := { c.committer with ms := g.committer.seconds * 1000 }
+                 author := if fixAuthor then { c.author with ms := g.author.seconds * 1000 } else c.author }
+      .ok ((g, extras) :: t, g, returned)
 
 /-! ### read -/
 
@@ -257,23 +275,26 @@ structure ReadCommit where
   deriving DecidableEq, Repr
 
 /-- `commit_from_git_without_root_parent` + root parent + `deserialize_extras` -/
-def gitRead (t : Table) (g : GitCommit) : Except Err ReadCommit := do
-  let labels ← extractLabels g
-  let rootTree ← extractRootTree g
-  let parents := if g.parents.isEmpty then [rootCommitId] else g.parents
-  let headerChangeId := extractChangeId g
-  match t.get? g with
-  | none => .error .panic     -- unimported commit: not reachable after `write`
-  | some extras =>
-    let (changeId, synthetic) :=
-      if !extras.changeId.isEmpty then (extras.changeId, false)
-      else match headerChangeId with
-        | some b => (b, false)
-        | none => ([], true)
-    .ok { commit := { parents, predecessors := extras.predecessors, rootTree, labels, changeId,
-                      description := g.message, author := signatureFromGit g.author,
-                      committer := signatureFromGit g.committer }
-          syntheticChangeId := synthetic }
+def gitRead (t : Table) (g : GitCommit) : Except Err ReadCommit :=
+  match extractLabels g with
+  | .error e => .error e
+  | .ok labels =>
+    match extractRootTree g with
+    | .error e => .error e
+    | .ok rootTree =>
+      let parents := if g.parents.isEmpty then [rootCommitId] else g.parents
+      match t.get? g with
+      | none => .error .panic     -- unimported commit: not reachable after `write`
+      | some extras =>
+        let changeId : Bytes × Bool :=
+          if !extras.changeId.isEmpty then (extras.changeId, false)
+          else match extractChangeId g with
+            | some b => (b, false)
+            | none => ([], true)
+        .ok { commit := { parents, predecessors := extras.predecessors, rootTree, labels, changeId := changeId.1,
+                          description := g.message, author := signatureFromGit g.author,
+                          committer := signatureFromGit g.committer }
+              syntheticChangeId := changeId.2 }
 
 /-! ### simple backend -/
 
